@@ -31,7 +31,9 @@ func concValues() ([]interface{}, map[string]reflect.Type, map[string]string) {
 	vals := []interface{}{int32(7), "héllo", zoo.Small{Name: "a", N: 1}, x, []int32{1, 2, 3}, []string{"a", "", "b"},
 		zoo.Item{K: "k", V: 1 << 40}, n2, zoo.CustomHolder{Title: "t", Items: []zoo.Custom{{Key: "k", Val: "v"}}},
 		zoo.Scalars{I: 3, S: "s", F64: 2.5, Bin: []byte{1, 2}}, []interface{}{zoo.W00{V: 1}, &zoo.W01{V: 2}, zoo.W02{V: 3}},
-		map[string]int32{"one": 1}, wideElems(18)}
+		map[string]int32{"one": 1}, wideElems(18),
+		strings.Repeat("a", 3000), strings.Repeat("b", 2500) + "é", strings.Repeat("c", 5000), bytes.Repeat([]byte{7}, 9000), bytes.Repeat([]byte{8}, 5000),
+		[]string{strings.Repeat("x", 2100), "y"}}
 	tm, nm := hessian.ExtractTypeNameMap(append([]interface{}{}, vals...))
 	return vals, tm, nm
 }
